@@ -12,7 +12,7 @@ def add(i, technique, text, note, ref):
 EXACT = "property-based testing (proptest, seeded, 16 workers) against an exact big-integer/rational reference oracle with constructive boundary generators; failures shrunk to a replay file"
 add("C01", EXACT,
     "Exploration: every generated operand pair (class-based and boundary-directed generators, all 9 integer types, all operand forms) is compared with exact 768-bit integer arithmetic; held on everything generated, not a proof.",
-    "Trusts the oracle crate (self-tested against native i128 and Python), rustc, and that the harness build (overflow-checks on) matches the dev profile; release-profile behaviour is C20.", "5/C01")
+    "Trusts the oracle crate (self-tested against native i128 and Python), rustc, and that the harness builds (overflow-checks on / off) match the dev and release profiles; the cross-profile differential itself is C20.", "5/C01")
 add("C02", EXACT,
     "Exploration: products compared with the exact product rounded by a definition-level rounding oracle for all 8 thread-default modes; constructed ties, wide products, overflow boundaries, zero/one operands.",
     "Trusts the oracle crate and rustc; scale of x*y not checked when an operand is zero/one (as stated).", "5/C02")
@@ -83,6 +83,8 @@ def main():
             t, text, note, ref = CHECKS[i]
             if i in ("C01","C02","C03","C04","C05","C06","C10","C12","C13","C16"):
                 t += "; thorough tier adds a coverage-guided libFuzzer/ASan campaign (bin/fuzz) with the same oracle in-target"
+            if i not in ("C18", "C20"):
+                t += "; every run is repeated with the same seed by two further harness builds (without overflow checks / debug assertions; the same against fpdec with feature packed and default-features = false)"
             checks.append({
                 "property_id": i,
                 "quick_cmd": f"bin/check {i} --tier quick",
@@ -112,7 +114,7 @@ def main():
         ],
         "checks": checks,
         "not_applicable": na,
-        "notes": "exit codes of every check: 0 held, 1 violation (VIOLATION line + replay file under replays/<id>/), 2 inconclusive (build failure, harness/oracle problem, watchdog). Known findings: known_findings.json.",
+        "notes": "bin/check rebuilds the harness against /repo's working tree (cargo path dependency) before every run. exit codes of every check: 0 held, 1 violation (VIOLATION line + replay file under replays/<id>/), 2 inconclusive (build failure, harness/oracle problem, watchdog). Known findings: known_findings.json.",
     }
     json.dump(m, open(os.path.join(ROOT, 'MANIFEST.json'), 'w'), indent=1)
     print("checks:", len(checks), "not_applicable:", len(na))
